@@ -223,6 +223,7 @@ impl Report {
 
     /// Record one evaluated case. Returns the violation if it is not a known finding.
     pub fn record(&self, stage: &str, out: Outcome, rendered: impl FnOnce() -> J) -> Option<Violation> {
+        PROGRESS.fetch_add(1, Ordering::Relaxed);
         let mut inner = self.inner.lock().unwrap();
         let st = inner.stages.entry(stage.to_string()).or_default();
         st.evaluations += 1;
@@ -518,6 +519,27 @@ fn first_hard(rep: &Report, out: Outcome) -> Option<Violation> {
         all.push(v);
     }
     all.into_iter().find(|v| rep.is_known(&v.sig).is_none())
+}
+
+pub static PROGRESS: std::sync::atomic::AtomicU64 = std::sync::atomic::AtomicU64::new(0);
+
+/// Hang watchdog: if no case completes for `limit`, the run is inconclusive (exit 2), never a violation.
+pub fn spawn_watchdog(limit: std::time::Duration) {
+    std::thread::spawn(move || {
+        let mut last = PROGRESS.load(Ordering::Relaxed);
+        let mut since = Instant::now();
+        loop {
+            std::thread::sleep(std::time::Duration::from_secs(5));
+            let cur = PROGRESS.load(Ordering::Relaxed);
+            if cur != last {
+                last = cur;
+                since = Instant::now();
+            } else if since.elapsed() > limit {
+                println!("INCONCLUSIVE: no case completed for {:?} (hang in the code under test or in a child); watchdog exit", limit);
+                std::process::exit(2);
+            }
+        }
+    });
 }
 
 thread_local! {
